@@ -23,6 +23,8 @@ def whole_scan_depths(ctx):
     inputs = [b"get http://example.com/dl?x=aGVsbG8gd29ybGQgaGVsbG8gd29ybGQgaGVsbG8gd29ybGQ= now",
               b'x = atob("aHR0cDovL2EuY29tL3A/cT1hR1ZzYkc4Z2QyOXliR1FnYUdWc2JHOGdkMjl5YkdRZ2FHVnNiRzg9")',
               b'"he" + "llo" & reverse("dlrow") cmd /c p^ing 10.1.2.3']
+    import corpus_gen
+    inputs += [corpus_gen.xor_document(ctx.rng) for _ in range(ctx.budget(25, 400))] + [d for d in corpus_gen.gen_inputs(ctx.rng, ctx.budget(25, 400), ("stack", "shell")) if len(d) < 3000]
     for d in inputs:
         trees = {}
         for k in [2, 6, 1, 0, -1, 4, 3, 5, 7]:
